@@ -32,12 +32,12 @@ SPEC = {
              "non-2xx status, a failure kind, auto-tag on, or >= 2 instances (HTTP); every gRPC case; distinct = hash of the case."),
     "floors": {"TestHTTPSamples/status_3xx": 0.1, "TestHTTPSamples/status_4xx": 0.1, "TestHTTPSamples/status_5xx": 0.1,
                "TestHTTPSamples/fail_reset": 0.1, "TestHTTPSamples/fail_timeout": 0.1, "TestHTTPSamples/fail_short_body": 0.1,
-               "TestHTTPSamples/fail_refused": 0.04, "TestHTTPSamples/auto_tag": 0.3, "TestHTTPSamples/auto_tag_appended": 0.1,
+               "TestHTTPSamples/fail_refused": 0.04, "TestHTTPSamples/auto_tag": 0.24, "TestHTTPSamples/auto_tag_appended": 0.1,
                "TestHTTPSamples/instances_ge_2": 0.5, "TestHTTPSamples/uri_without_path": 0.4,
                "TestHTTPSamples/auto_tag_of_uri_without_path_untagged": 0.15, "TestHTTPSamples/uri_without_path_abs": 0.1,
                "TestHTTPSamples/uri_without_path_query": 0.1, "TestHTTPSamples/uri_without_path_abs_query": 0.1,
-               "TestGRPCScenarioTags/one_instance_reruns_a_call_in_another_scenario": 0.3,
-               "TestGRPCScenarioTags/call_shared_by_invoked_scenarios": 0.6, "TestGRPCScenarioTags/three_or_more_scenarios_invoked": 0.3,
+               "TestGRPCScenarioTags/one_instance_reruns_a_call_in_another_scenario": 0.24,
+               "TestGRPCScenarioTags/call_shared_by_invoked_scenarios": 0.45, "TestGRPCScenarioTags/three_or_more_scenarios_invoked": 0.3,
                "TestGRPCScenarioTags/instances_ge_2_with_shared_call": 0.15, "TestGRPCScenarioTags/step_with_non_ok_status": 0.2, "TestGRPCCodes/shared_client": 0.2, "TestGRPCCodes/out_of_range_codes": 0.2},
     "exhaustive_note": "gRPC status codes 0..16 are all exercised in every TestGRPCCodes case (the sub-space of defined codes is enumerated completely)",
     "manifest": {
